@@ -93,6 +93,16 @@ def evaluate(case, out):
                 out.skip("nan-pool-mean")
                 continue
             try:
+                if len(cvrs) % 2 == 0 and len(cvrs) > len(cs):
+                    # the data of another sample of the same size were asked for before (a simulated draw, an earlier
+                    # selection): the cards that happen to come last in the list instead of the ones drawn
+                    other = list(range(len(cvrs)))[-len(cs):]
+                    try:
+                        a.mvrs_to_data([mvrs[i] for i in other], [cvrs[i] for i in other], use_all=True)
+                        a.mvrs_to_data([mvrs[i] for i in other], [cvrs[i] for i in other])
+                        feats.add("after-another-sample-of-the-same-size")
+                    except Exception:  # noqa  (that other sample may contain cards this one could not: not judged)
+                        pass
                 d, u = a.mvrs_to_data(ms, cs)
                 d_all, u_all = a.mvrs_to_data(ms, cs, use_all=True)
             except Exception as e:  # noqa
